@@ -32,6 +32,7 @@ type IdxCase struct {
 	Reopen  int       `json:"reopen"` // close+reopen this many times before querying
 	Queries []QCase   `json:"queries"`
 	Fresh   bool      `json:"fresh"` // compare every answer with a freshly opened uncached index too
+	Other   *DataSpec `json:"other,omitempty"` // C08: a second index the same *Query values are executed on in between
 }
 
 func toExpr(e *Ex) updog.Expression {
@@ -97,7 +98,27 @@ func safeExecute(idx *updog.Index, q *updog.Query) (s string) {
 var boltOpts = &bbolt.Options{Timeout: 10 * time.Second}
 
 // buildIndexFile writes rows with the chosen writer and returns the ids AddRow returned.
-func buildIndexFile(kind string, rows []map[string]string, path string) (ids []uint32, err error) {
+// It runs under a watchdog: a writer that blocks (e.g. a Close waiting for an open write transaction)
+// is reported as an error instead of hanging the run.
+func buildIndexFile(kind string, rows []map[string]string, path string) ([]uint32, error) {
+	type res struct {
+		ids []uint32
+		err error
+	}
+	ch := make(chan res, 1)
+	go func() {
+		ids, err := buildIndexFileInner(kind, rows, path)
+		ch <- res{ids, err}
+	}()
+	select {
+	case r := <-ch:
+		return r.ids, r.err
+	case <-time.After(120 * time.Second):
+		return nil, fmt.Errorf("hang: writer did not finish within 120s")
+	}
+}
+
+func buildIndexFileInner(kind string, rows []map[string]string, path string) (ids []uint32, err error) {
 	defer func() {
 		if r := recover(); r != nil {
 			err = fmt.Errorf("panic: %v", r)
@@ -145,6 +166,7 @@ func buildIndexFile(kind string, rows []map[string]string, path string) (ids []u
 		if err != nil {
 			return nil, err
 		}
+		defer w.Close() // releases the temp transaction if AddRow/Flush failed (runs before the deferred DB closes)
 		for _, r := range rows {
 			id, err := w.AddRow(r)
 			if err != nil {
@@ -421,10 +443,28 @@ func runIdxCase(o *Oracle, c *IdxCase, rep *Report, fl idxFlags) {
 		defer fresh.Close()
 	}
 
+	var other *updog.Index
+	if c.Other != nil {
+		op := path + ".other"
+		os.Remove(op)
+		if _, err := buildIndexFile("mem", c.Other.Materialize(), op); err == nil {
+			other, _, _ = openIdx(op, false, -1)
+		}
+		defer os.Remove(op)
+		if other != nil {
+			defer other.Close()
+		}
+	}
+
 	for qi := range c.Queries {
 		q := &c.Queries[qi]
 		toks := q.Toks()
 		uq := toQuery(q)
+		if other != nil && qi%2 == 1 {
+			// the Query value has already been used on another index (possibly failing there)
+			safeExecute(other, uq)
+			rep.Count("cross-index-executions")
+		}
 		got := safeExecute(idx, uq)
 		want := o.Ask("idx q " + toks)
 		nontrivial := strings.HasPrefix(want, "ok") && !strings.HasPrefix(want, "ok 0") && q.E.Size() > 1
@@ -477,6 +517,17 @@ func runIdxCase(o *Oracle, c *IdxCase, rep *Report, fl idxFlags) {
 			if again != want {
 				viol("history", sigBase+":reexecute-mismatch", fmt.Sprintf("execution %d of the same Query value (%s) differs", k+2, toks), want, again)
 				break
+			}
+		}
+		if other != nil && q.Repeat > 0 {
+			// same Query value on a different index, then back: each execution equals a fresh equal query there
+			gotO, wantO := safeExecute(other, uq), safeExecute(other, toQuery(q))
+			rep.Count("cross-index-executions")
+			if gotO != wantO {
+				viol("history", sigBase+":reexecute-on-other-index-mismatch", fmt.Sprintf("the Query value (%s), used before on another index, answers differently from a fresh equal query", toks), wantO, gotO)
+			}
+			if back := safeExecute(idx, uq); back != want {
+				viol("history", sigBase+":reexecute-mismatch", fmt.Sprintf("the Query value (%s) executed on another index and then again on the first one", toks), want, back)
 			}
 		}
 		if q.Repeat > 0 {
